@@ -166,7 +166,9 @@ def observe(p, role, eout, bytes_before, sent_before, peak, steps, tls13_protect
     s = eut.session
     return {"ev": "OBS", "raised": raised, "exc": "-" if eout.exc is None else type(eout.exc).__name__,
             "msg": "" if eout.exc is None else _safe_str(eout.exc),
-            "alertOnWire": bool(alert), "alertLevel": int(level), "closed": bool(eut.closed),
+            "alertOnWire": bool(alert), "alertLevel": int(level),
+            # closed = the object reports it AND (closeSocket is left at its default) the transport was closed
+            "closed": bool(eut.closed) and bool((p.csock if role == "c" else p.ssock).closed),
             "resumable": bool(s is not None and s.resumable),
             "bytesIn": max(0, len(inpipe.dlv_log) - bytes_before), "peakAlloc": int(peak), "steps": int(steps)}
 
